@@ -483,9 +483,12 @@ ASSUME = {
     "C17": COMMON + ["lexing of decimal/literal/dotted-path strings is Python's (tokens are structured in the theorem); "
                      "validated only by the differential run",
                      "canonical fragment: one run of positionals, options before/after it; long options in full, as "
-                     "unambiguous abbreviations (argparse's allow_abbrev), with the value behind a blank or behind `=`; "
-                     "ambiguous abbreviations and `--flag=value` are error verdicts; still outside: `--`, `-c=v`, `-ab`, "
-                     "`--name=--`, unknown long strings before the command word; lines the model declares outside are "
+                     "unambiguous abbreviations (argparse's allow_abbrev), with the value behind a blank or behind `=`; short options "
+                     "with the value in the same string (`-cV`, `-c=V`), clusters of flag letters (`-ab`, `-abcV`, `-abc V`), the "
+                     "separator `--` in front of / inside / behind the positional strings; "
+                     "ambiguous abbreviations, `--flag=value`, `-fx` / `-f=` behind a flag are error verdicts; still outside: "
+                     "the value `--` (`--name=--`, `-c--`), a second `--`, `--` or unknown strings before the command word, the "
+                     "empty string, a second positional run; lines the model declares outside are "
                      "not sent in this check (counters form:*: how many lines used each form / were judged inside)",
                      "bool parameters are store_true flags whose absent value is False (the pool classes' own default)"],
     "C18": COMMON + ["partial: 'argparse returns a verdict for EVERY string without raising, printing or exiting' is sampled, "
